@@ -371,6 +371,7 @@ type Cmd struct {
 // Outcome is what a command returned, in canonical form.
 type Outcome struct {
 	Kind    string
+	Parsed  bool // run/parse: the text was accepted by the parser (RunAfterParsed is defined afterwards)
 	Panic   string // signature, "" if none
 	PanicAt string
 	Err     string
@@ -551,9 +552,15 @@ func DoCmd(vm *ds.Context, c Cmd) *Outcome {
 	p, cancelled, _, sig, _ := Guard(func() {
 		switch c.Kind {
 		case "run":
-			err = vm.Run(c.Src)
+			// Run is Parse followed by RunAfterParsed; done in two steps to know whether the text was accepted
+			err = vm.Parse(c.Src)
+			if err == nil {
+				o.Parsed = true
+				err = vm.RunAfterParsed()
+			}
 		case "parse":
 			err = vm.Parse(c.Src)
+			o.Parsed = err == nil
 		case "rerun":
 			err = vm.RunAfterParsed()
 		case "runexpr":
